@@ -16,13 +16,17 @@ NOT_YET = {}
 
 PROPS = {
     "C16": {
-        "suites": [{"name": "srate", "quick": 1500, "thorough": 40000}],
+        "suites": [{"name": "srate", "quick": 1500, "thorough": 40000},
+                   {'name': 'fxrate', 'quick': 1500, 'thorough': 20000}],
         "level_text": "Lean theorems about the labelled transition system of the sample-rate protocol (gameplay add-track path: load "
                       "rate + init effects, enqueue; audio side: rate change over arena contents, pickup) for ALL interleavings: a "
                       "change reaches every track the audio thread owns; the full claim is refuted for the current code by an "
                       "explicit witness schedule (C16_stale_rate_reachable) and holds in every history where no track is in flight "
                       "across a change (C16_rate_in_force_partial, inductive invariant). The model runs as a twin against kira "
-                      "through the public API with probe effects that log init / on_change_sample_rate / dt",
+                      "through the public API with probe effects that log init / on_change_sample_rate / dt. Effect level (suite fxrate, "
+                      "Proofs/EffectsRate.lean): in any history of rate changes the delay line is max(floor(delay*sr),1) frames, nested "
+                      "feedback effects know the rate in force, reverb line sizes and the filter / EQ coefficients track the rate of the "
+                      "current call; real Delay (with nested probe, Filter and Delay), Reverb, Filter, EqFilter compared bit for bit",
         "level_note": "time-scaling clauses: C16_clock_rate_independent, C16_tween_rate_independent, C16_sound_position_rate_independent "
                       "(Props/C16_time.lean) are corollaries of the closed forms of C05/C06/C04 - two devices at any two rates that rendered "
                       "the same real time, with any chunkings, agree; delay times and filter frequencies: C14/C16 effect theorems. "
